@@ -159,6 +159,7 @@ LIKE_SUBSTANCES = {'B': 'H2O', 'P': 'NaCl'}     # objects named exactly like the
 def fresh(pp, water, salt, names=PLAIN):
     C, P = pp.Container, pp.Plate
     return {'A': C('A', initial_contents=[(water, '100 mL'), (salt, '5 g')]), 'B': C(names['B']), 'P': P(names['P'], '1 mL', rows=1, columns=2),
+            'XP': P('XP', '1 mL', rows=2, columns=2),          # a plate that is never declared
             'X': C('X', initial_contents=[(water, '10 mL')]),
             'D1': C('D', initial_contents=[(water, '1 mL')]), 'D2': C('D', initial_contents=[(water, '2 mL')])}
 
@@ -273,6 +274,25 @@ def run_sequence(pp, water, salt, seq, M, stats, states, transitions, check_batt
     res = None
     bat = None
     for i, sym in enumerate(seq):
+        if check_battery and not m.locked and (i == 0 or sym == 'bake'):
+            # objects that were never declared are refused in every role and in every form (a whole plate, a slice, one well)
+            XP_, A_ = o['XP'], o['A']
+            undeclared = [('fill_slice', lambda: r.fill_to(XP_[1, :], water, '20 uL')), ('fill_well', lambda: r.fill_to(XP_['A:1'], water, '20 uL')),
+                          ('fill_plate', lambda: r.fill_to(XP_, water, '20 uL')), ('remove_slice', lambda: r.remove(XP_[:, 1], water)),
+                          ('remove_plate', lambda: r.remove(XP_, water)), ('transfer_to_slice', lambda: r.transfer(A_, XP_[1, :], '1 uL')),
+                          ('transfer_from_well', lambda: r.transfer(XP_['B:2'], A_, '1 uL')), ('transfer_to_plate', lambda: r.transfer(A_, XP_, '1 uL'))]
+            n_before = len(r.steps)
+            for pname, pcall in undeclared:
+                stats['LIFE.undeclared_probe'] += 1
+                try:
+                    pcall()
+                except Exception:   # noqa
+                    if len(r.steps) != n_before:
+                        M.violate(['C16'], 'LIFE', f'C16:refused_call_added_a_step:undeclared:{pname}', {'sequence': list(seq[:i])})
+                        return
+                    continue
+                M.violate(['C16'], 'LIFE', f'C16:undeclared_object_accepted:{pname}', {'sequence': list(seq[:i])})
+                return
         before_key = m.key()
         was_locked = m.locked
         exp = m.step(sym)
